@@ -98,7 +98,7 @@ fn gen(seed: u64) -> Plan16 {
                 let max = *rng.pick(&[1u128 << 127, model::P128 - 1, (model::P128 - 1) / 2 + 1]);
                 let len = 2 + rng.below(3) as u32;
                 let bits = crate::model::bits_of(max) as u32;
-                inst = Inst { class: "l1".into(), n: 2 + rng.below(2) as u8, proofs: 1, max: N(max), len, chunk: 1 + rng.below((bits * (len + 1)) as u64) as u32, weight: 1, mt: false, named: true };
+                inst = Inst { class: "l1".into(), n: 2 + rng.below(2) as u8, proofs: 1, max: N(max), len, chunk: 1 + rng.below((bits * (len + 1)) as u64) as u32, weight: 1, mt: false, named: true, xof: String::new() };
             }
             let mut meas = model::gen_meas(&inst, rng);
             if what == "norm_wrap" {
@@ -734,7 +734,7 @@ fn exec(p: &Plan16, ctx: &mut Ctx, counters2: &mut Counters) -> Result<(), Strin
             // parameters that do not survive the harness's narrower Inst representation are not run
             let fits = *len <= u32::MAX as u64 && *chunk <= u32::MAX as u64 && *weight <= u32::MAX as u64 && (base != "sum" || m <= u64::MAX as u128) && *chunk >= 1 && *weight >= 1;
             if known && fits && !too_big(class, *n, *proofs, m, *len, *chunk, *weight) && *n <= 16 {
-                let inst = Inst { class: base.to_string(), n: if matches!(base, "prio2" | "poplar1") { 2 } else { *n }, proofs: 1, max: *max, len: *len as u32, chunk: (*chunk).max(1) as u32, weight: (*weight).max(1) as u32, mt: class.ends_with("-mt"), named: true };
+                let inst = Inst { class: base.to_string(), n: if matches!(base, "prio2" | "poplar1") { 2 } else { *n }, proofs: 1, max: *max, len: *len as u32, chunk: (*chunk).max(1) as u32, weight: (*weight).max(1) as u32, mt: class.ends_with("-mt"), named: true, xof: String::new() };
                 if base == "avg" && m > (1 << 58) {
                     return Ok(());
                 }
